@@ -15,7 +15,8 @@
 //   -> state=<n> threw=<0|1> fed=<n> nbytes=<n> [error=<what>] bytes=<hex>
 //   c2reset                         new Codec2 (mode 3200) reference instance           -> ok
 //   c2 <320 samples csv>            encode one 40 ms frame the way the application does -> c2=<16 bytes hex>
-// delay_us = pause of the consumer after every byte (0 = none; 1000 is slower than the modulator produces).
+// delay_us = pause of the consumer after every byte (0 = none; 1000 is slower than the modulator produces); a trailing 'u'
+// (e.g. 1000u) makes the consumer drain with get_until(now + 20 ms) instead of get(20 ms).
 #include "M17Modulator.h"
 #include "common.h"
 #include <atomic>
@@ -27,6 +28,9 @@
 using namespace mobilinkd;
 using namespace std::chrono_literals;
 using clk = std::chrono::steady_clock;
+
+static std::atomic<unsigned long> g_command{0};
+static std::atomic<bool> g_printed{false};      // the current command has printed its result line
 
 struct Rig {
     std::shared_ptr<M17Modulator::audio_queue_t> audio = std::make_shared<M17Modulator::audio_queue_t>();
@@ -41,16 +45,17 @@ struct Rig {
     std::string error;
     double limit_s = 10.0;
 
-    Rig(const std::string& src, const std::string& dst, int delay_us, int stall_ms = 0) : mod(src, dst)
+    Rig(const std::string& src, const std::string& dst, int delay_us, int stall_ms = 0, bool until = false) : mod(src, dst)
     {
         fut = mod.run(audio, bits);
-        consumer = std::thread([this, delay_us, stall_ms] {
+        consumer = std::thread([this, delay_us, stall_ms, until] {
             // optional initial stall: the consumer starts draining only stall_ms after the first byte was queued
             if (stall_ms > 0) { while (bits->empty() && !stop_consumer) std::this_thread::sleep_for(1ms);
                                 std::this_thread::sleep_for(std::chrono::milliseconds(stall_ms)); }
             while (true) {
                 uint8_t b;
-                if (bits->get(b, 20ms)) {
+                // the consumer drains with get(timeout) or, when asked, with get_until(deadline): both are the queue's public interface
+                if (until ? bits->get_until(b, clk::now() + 20ms) : bits->get(b, 20ms)) {
                     { std::lock_guard<std::mutex> g(out_m); out.push_back(b); }
                     ++nrecv;
                     if (delay_us > 0) std::this_thread::sleep_for(std::chrono::microseconds(delay_us));
@@ -83,6 +88,7 @@ struct Rig {
         std::printf("state=%d threw=%d fed=%ld nbytes=%zu%s%s bytes=%s\n", st, threw ? 1 : 0, fed, out.size(),
                     error.empty() ? "" : " error=", error.c_str(), vh::to_hex(out).c_str());
         std::fflush(stdout);
+        g_printed = true;
         if (error == "modulator-thread-did-not-stop") std::_Exit(3);
     }
 };
@@ -103,7 +109,7 @@ static std::vector<int> csv_ints(const std::string& s)
 static void run_det(const std::vector<std::string>& t)
 {
     std::string src = t[1], dst = t[2] == "-" ? "" : t[2];
-    Rig rig(src, dst, std::atoi(t[3].c_str()));
+    Rig rig(src, dst, std::atoi(t[3].c_str()), 0, !t[3].empty() && t[3].back() == 'u');
     long fed = 0;
     for (size_t k = 4; k < t.size() && rig.error.empty(); ++k) {
         const std::string& op = t[k];
@@ -139,7 +145,7 @@ static void run_rand(const std::vector<std::string>& t)
     int stall_ms = t.size() > 9 ? std::atoi(t[9].c_str()) : 0;
     long minsamples = t.size() > 10 ? std::atol(t[10].c_str()) : 0;     // key-ups last at least this many samples
     if (minsamples > maxsamples) minsamples = maxsamples;
-    Rig rig(src, dst, delay_us, stall_ms);
+    Rig rig(src, dst, delay_us, stall_ms, !t[3].empty() && t[3].back() == 'u');
     rig.limit_s = minsamples > 1000000 ? 900.0 : 60.0 + stall_ms / 1000.0;
     std::atomic<long> fed{0};
     std::atomic<bool> stop_feeder{false};
@@ -174,6 +180,21 @@ static void run_rand(const std::vector<std::string>& t)
     rig.finish(fed);
 }
 
+// a schedule whose modulator is stuck (blocked in put() for ever, never idle) must end the command, not hang the check
+static void arm_watchdog(double seconds)
+{
+    unsigned long mine = ++g_command;
+    g_printed = false;
+    std::thread([mine, seconds] {
+        auto end = clk::now() + std::chrono::duration_cast<clk::duration>(std::chrono::duration<double>(seconds));
+        while (clk::now() < end) { if (g_command != mine) return; std::this_thread::sleep_for(100ms); }
+        if (g_command != mine) return;
+        if (!g_printed) std::printf("state=-1 threw=0 fed=0 nbytes=0 error=watchdog-schedule-did-not-finish bytes=-\n");
+        std::fflush(stdout);
+        std::_Exit(3);
+    }).detach();
+}
+
 int main()
 {
     struct CODEC2* c2 = nullptr;
@@ -181,6 +202,11 @@ int main()
     while (std::getline(std::cin, line)) {
         auto t = vh::split(line);
         if (t.empty()) continue;
+        // generous: scripted schedules finish in seconds; the thorough tier's 32772-frame key-up and 6 s stall get their own limits
+        double limit = 150.0;
+        if (t[0] == "rand" && t.size() > 10 && std::atol(t[10].c_str()) > 1000000) limit = 1500.0;
+        if (t[0] == "rand" && t.size() > 9) limit += std::atoi(t[9].c_str()) / 1000.0;
+        arm_watchdog(limit);
         if (t[0] == "det" && t.size() >= 4) run_det(t);
         else if (t[0] == "rand" && t.size() >= 9) run_rand(t);
         else if (t[0] == "c2reset") {
